@@ -139,7 +139,7 @@ def run(ctx):
         SC.in_list_shape_lane(ctx, ctx.rng("inshape" + style), make_select(style, lambda x: x),
                               findings.sqla_semantic_triggers, profile=clean)
         SC.nullable_key_lane(ctx, ctx.rng("nullkey" + style), make_select(style, lambda x: x),
-                             findings.sqla_semantic_triggers, kinds=("date", "str", "int", "datetime", "bool"))
+                             findings.sqla_semantic_triggers, kinds=("date", "str", "int", "datetime", "bool"), null_items=True)
         SC.int_vs_decimal_lane(ctx, ctx.rng("intdec" + style), make_select(style, lambda x: x),
                                findings.sqla_semantic_triggers, profile=clean)
         SC.interval_lane(ctx, ctx.rng("interval" + style), make_select(style, lambda x: x),
